@@ -31,6 +31,7 @@ type (
 	abool  bool
 	aint   int64
 	afloat float64 // a concrete floating-point number (q-values, mostly)
+	apanic struct{} // what an oracle returns to raise a panic at its call
 	astr   string
 	asym   struct{ name string } // opaque ordered quantity
 	anil   struct{}
@@ -788,6 +789,15 @@ func (e *absEnv) call(fn *ssa.Function, args []aval, free []aval, depth int) ava
 				}
 			case *ssa.Call:
 				fr.regs[t] = e.doCall(fr, &t.Call, depth)
+				if _, unwinding := fr.regs[t].(apanic); unwinding {
+					// a panic raised by an oracle: the frame's deferred calls run, then it goes on to the caller
+					// (recover is not modelled: a table that scripts a panic looks at the state left behind)
+					for i := len(fr.defers) - 1; i >= 0; i-- {
+						fr.defers[i]()
+					}
+					fr.defers = nil
+					return apanic{}
+				}
 				if absTrace {
 					println("TRACE", fn.Name(), calleeName(&t.Call), "=>", describeAval(fr.regs[t]))
 				}
